@@ -2,6 +2,7 @@ use crate::engine::RunCtx;
 
 pub mod c01;
 pub mod c02;
+pub mod c03;
 pub mod c04;
 pub mod c05;
 pub mod c06;
@@ -20,6 +21,7 @@ pub struct Entry {
 pub const REGISTRY: &[Entry] = &[
     Entry { id: "C01", level: "fault_enumeration", run: c01::run },
     Entry { id: "C02", level: "fault_enumeration", run: c02::run },
+    Entry { id: "C03", level: "exploration", run: c03::run },
     Entry { id: "C04", level: "exploration", run: c04::run },
     Entry { id: "C05", level: "exploration", run: c05::run },
     Entry { id: "C06", level: "exploration", run: c06::run },
